@@ -466,9 +466,40 @@ def collected (txAttrs assigned : List String) (contained : Bool) (extras : List
   let d := if contained then set "parent" d else d
   extras.foldl (fun d k => set k d) d
 
-/-- the filter in `_end_model_construction` -/
-def kwargs (txAttrs : List String) (coll : List String) : List String :=
+/-- what `_end_model_construction` passes on: attributes of the rule, and `parent` unless the object
+is the root of its model (`obj is model` ⇔ not contained: a `parent` found among the root's collected
+attributes is taken out — it goes onto the object only — before the filter `k in _tx_attrs or k == "parent"`) -/
+def kwargs (txAttrs : List String) (contained : Bool) (coll : List String) : List String :=
+  coll.filter fun k => txAttrs.contains k || (k == "parent" && contained)
+
+/-- the filter of the pinned code: `parent` was passed whenever it was found -/
+def kwargsPinned (txAttrs : List String) (coll : List String) : List String :=
   coll.filter fun k => txAttrs.contains k || k == "parent"
+
+/-- `delattr` on the collecting dict (the instrumented `__delattr__` pops the name) -/
+def del (k : String) (d : List String) : List String := d.filter fun x => x != k
+
+/-- what user code (callback, scope provider, model processor of an imported file, the
+constructor of another object) does to an object that is still under construction -/
+inductive Op where
+  | set (k : String)
+  | del (k : String)
+deriving DecidableEq, Repr
+
+def Op.apply : Op → List String → List String
+  | .set k, d => Kw.set k d
+  | .del k, d => Kw.del k d
+
+/-- the keys collected for an object after textX's own stores and the stores / deletions of user code -/
+def collectedOps (txAttrs assigned : List String) (contained : Bool) (extras : List String) (ops : List Op) :
+    List String :=
+  ops.foldl (fun d o => o.apply d) (collected txAttrs assigned contained extras)
+
+/-- what user code may do without changing the constructor arguments: store anything, delete
+anything but what the constructor is owed (grammar attributes, `parent` of a contained object) -/
+def Op.harmless (txAttrs : List String) (contained : Bool) : Op → Prop
+  | .set _ => True
+  | .del k => k ∉ txAttrs ∧ (k = "parent" → contained = false)
 
 end Kw
 
